@@ -148,6 +148,27 @@ pub fn run(ctx: &Ctx, rep: &mut Reporter) -> Json {
                     panic_violation(rep, case_idx, "panic", &p, Json::obj());
                 }
             }
+            // buffers read in whole blocks: the file followed by the fill of its last 512-byte
+            // or 4096-byte block (NUL, blank, ^Z) — the identifier covers the fill
+            {
+                let r = guarded(|| {
+                    let once = check_one(&base, "single copy", rep, case_idx, &mut log);
+                    for block in [512usize, 4096] {
+                        let fill = *rng.pick(&[0u8, 0, b' ', 0x1a, b'\n']);
+                        let mut v = base.clone();
+                        let pad = (block - v.len() % block) % block;
+                        v.extend(std::iter::repeat(fill).take(if pad == 0 { block } else { pad }));
+                        let u = check_one(&v, "padded to a whole block", rep, case_idx, &mut log);
+                        rep.count("inputs_padded_to_a_whole_block", 1);
+                        if u == once {
+                            rep.violation(case_idx, "uuid-oracle", "a file and the same file padded to a whole block have the same UUID", Json::obj());
+                        }
+                    }
+                });
+                if let Err(p) = r {
+                    panic_violation(rep, case_idx, "panic", &p, Json::obj());
+                }
+            }
             // a mapping appended to itself (a CI step that ran `cat mapping.txt >> out` twice),
             // three times, and two halves that differ in one byte: each is its own byte string
             {
